@@ -442,7 +442,23 @@ impl Deb822 {
             } else {
                 paragraph.1
             };
-            inject(&mut builder, new_paragraph.0);
+            // A paragraph whose last line (a comment) lacks its newline would otherwise swallow
+            // the separator that follows it
+            let unterminated = new_paragraph
+                .0
+                .last_token()
+                .is_some_and(|t| t.kind() != NEWLINE);
+            builder.start_node(PARAGRAPH.into());
+            for child in new_paragraph.0.children_with_tokens() {
+                match child {
+                    rowan::NodeOrToken::Node(n) => inject(&mut builder, n),
+                    rowan::NodeOrToken::Token(t) => builder.token(t.kind().into(), t.text()),
+                }
+            }
+            if unterminated {
+                builder.token(NEWLINE.into(), "\n");
+            }
+            builder.finish_node();
         }
 
         for c in current {
